@@ -247,4 +247,21 @@ CHECKS = {
               'the message queued next is transmitted, start() keeps running.'),
         note=COMMON_NOTE + 'RuntimeError is the model stand-in for text codecs it does not describe (excluded by hypothesis; such messages go to the real session and are judged by the predicate). Hooks, rate limiter and transport writes are assumed not to fail here.',
         technique='Lean 4 theorems (compositional exception-class analysis of the encoder and the sender iteration, kernel-checked coverage of the regenerated isinstance tuple); differential correspondence through a real session on a virtual-time loop'),
+    'C15': dict(
+        text=('Proof (monitor + interleaving theorem) and trace conformance. Props/C15.lean over a monitor of the observable events of a '
+              'session (sending-hook calls with their bytes, every writer.write call, PDUs delivered by the peer, received-hook calls and '
+              'returns, successful binds): a run the monitor accepts has, on every connection, a written stream that an independent '
+              'framer splits into exactly the PDUs of the write calls (wire_is_whole_pdus, framing), every write carrying the very bytes '
+              'announced to the sending hook before (writes_were_announced); and EVERY interleaving of any number of concurrent '
+              '_send_data invocations, each suspended in its hook for any time, is accepted (all_interleavings_accepted, induction over '
+              'the schedule with a pending-announcement invariant). The other clauses - bind request of the configured mode first and '
+              'alone until the bind succeeded, responses echoing sequence number and command of a request read on that connection, '
+              'deliver_sm_resp only after the received hook returned, received hook at most once per delivered PDU, a receiver never '
+              'writes submit_sm - are rules of the monitor, checked on the traces, not consequences of a model of the tasks. Tied to '
+              'esme.py by real sessions on the virtual-time loop (hooks suspending for random times, bursts of plain and segmented '
+              'messages, inbound deliver_sm / enquire_link / unsupported / unparsable PDUs, drops, rejected binds, stop() at random '
+              'moments, all three modes): each whole event trace must be accepted; independent predicates re-check framing, '
+              'announcement, first PDU, receiver mode, state per mode and that start() ends without exception (after repair 0eac14c).'),
+        note=COMMON_NOTE + 'The abstraction of _send_data in the interleaving theorem (hook call; on return one write of the same bytes in the same turn) is read off esme.py 393-397 by hand and tied by the trace conformance only. PDUs in flight are assumed pairwise distinct (sequence numbers).',
+        technique='Lean 4 theorems (monitor soundness, framer correctness, induction over schedules); trace conformance of real sessions on a virtual-time event loop'),
 }
